@@ -45,7 +45,46 @@ func runJSONShape(p *core.Prog) *core.Result {
 	jsonCycle(p, res)
 	jsonShared(p, res)
 	jsonEscapes(p, res)
+	jsonKeys(p, res)
 	return res
+}
+
+// ---- 7. property keys handed to the serialiser are strings --------------------------------------
+
+// SerializeJSONProperty receives the key as a String (array indexes as ToString(index)): a replacer
+// function and toJSON observe it. Every call of str() that builds its key argument in place builds
+// a String.
+func jsonKeys(p *core.Prog, res *core.Result) {
+	str, err := p.GojaMethod("_builtinJSON_stringifyContext", "str")
+	if err != nil {
+		res.Fail(err)
+		return
+	}
+	strT, err := p.GojaType("String")
+	if err != nil {
+		res.Fail(err)
+		return
+	}
+	iface := strT.Underlying().(*types.Interface)
+	n := 0
+	for _, f := range p.Funcs {
+		for _, c := range core.CallsIn(f, str) {
+			if len(c.Common().Args) < 2 {
+				continue
+			}
+			mi, ok := c.Common().Args[1].(*ssa.MakeInterface)
+			if !ok {
+				continue // a Value taken from a key list: its type is not visible here
+			}
+			n++
+			key := fmt.Sprintf("%s:key handed to str() is a String#%d", core.FuncName(f), n)
+			if types.Implements(mi.X.Type(), iface) {
+				res.OK(key, p.Pos(c.Pos()), core.TypeShort(mi.X.Type()))
+			} else {
+				res.Bad(key, p.Pos(c.Pos()), "the property key given to the serialiser is a "+core.TypeShort(mi.X.Type())+", not a String: replacer functions and toJSON methods receive a non-string key for array elements")
+			}
+		}
+	}
 }
 
 // ---- 1. save / modify / restore --------------------------------------------------------------
